@@ -1024,7 +1024,9 @@ class bpch1(bpch_base):
                 (header[7], header[8]) == (first_header[7], first_header[8]) or
                 offset == file_size
             ):
-                if offset == file_size:
+                if (header[7], header[8]) != (first_header[7], first_header[8]):
+                    # last block of a file with one time step; a block that
+                    # repeats the first one belongs to the next step
                     dim = header[13][::-1]
                     # start = header[14][::-1]
                     data_type = dtype('>i4, %s>f4, >i4' % str(tuple(dim[:].tolist())))
